@@ -5,14 +5,15 @@ _g2l = importlib.util.module_from_spec(_spec); _spec.loader.exec_module(_g2l)
 T = "GeomV.C06."
 CFG = {
     "id": "C06",
-    "lean_modules": ["GeomV.C06.Proofs", "GeomV.C06.Tie"],
+    "lean_modules": ["GeomV.C06.Proofs", "GeomV.C06.TextProofs", "GeomV.C06.Tie"],
     "pregen": _g2l.pregen,
     "exe": "geomv_c06",
     "go_cmd": "c06",
     "lean_dirs": ["C06", "C17"],
     "stages": ["go:gen", "go:impl", "lean:judge"],
     "theorems": [T + n for n in ["C06_roundtrip", "C06_shape", "C06_errors", "C06_guard_exact", "C06_encode_total", "C06_decode_rfc", "C06_injective",
-                                 "C06_tie", "C06_roundtrip_src", "C06_shape_src"]],
+                                 "C06_tie", "C06_roundtrip_src", "C06_shape_src",
+                                 "C06_text_roundtrip", "C06_text_decode", "C06_numfmt_int"]],
     "trusted_base": [
         "Lean 4.33.0 kernel; axioms of every theorem printed by #print axioms must be within {propext, Classical.choice, Quot.sound}",
         "T1: lean/GeomV/C06/Gen.lean is regenerated from /repo/encoding/geojson/{encode,decode,geojson}.go on every run by "
@@ -20,6 +21,8 @@ CFG = {
         "T2: model lean/GeomV/C06/Model.lean is tied to /repo/encoding/geojson by the correspondence run on every check: ToGeoJSON's typed slices, "
         "Encode's bytes (parsed by the driver's own JSON parser and compared as a tree, key order included), Decode(Encode g), Decode of "
         "generator-written documents and FromGeoJSON on generic trees, all compared exactly (bit patterns, error kinds)",
+        "encoding/json text: the bytes json.Marshal writes for Geometry{Type, Coordinates: typed float slices} are modelled by renderGeometry "
+        "(Text.lean) and compared byte-for-byte on every encoded case, with the number formatter := encoding/json's own rendering of each coordinate",
         "encoding/json number text: Marshal writes for a finite float64 a decimal that ParseFloat reads back to the same bits (stdlib contract); "
         "measured on every encoded coordinate by the driver's exact decimal->binary64 rounding (lean/GeomV/C17/Dec.lean), which is itself "
         "cross-validated against strconv.ParseFloat by the C17 check",
@@ -37,7 +40,7 @@ CFG = {
             "(key order/case/escapes, duplicates, foreign members, white space, alternative number spellings, perturbed nesting/arity) decoded "
             "at text level (Decode) and tree level (FromGeoJSON). distinct = distinct input line; non-trivial = verdict class not 'skipped'",
     "timeout": {"quick": 600, "thorough": 3000},
-    "explanation": "SPEC verdicts: the bytes Encode returns are parsed by the driver's own RFC 8259 parser (numbers converted by exact "
+    "explanation": "SPEC verdicts: the bytes Encode returns are parsed by the total RFC 8259 parser of Text.lean (the one the text-level theorems are about) (numbers converted by exact "
                    "round-to-nearest-even) and must be read back to the input geometry bit-for-bit by the independent RFC 7946 reader "
                    "(exactly the members type/coordinates, nesting 1/2/2/3/3/4, innermost [x,y]); Decode(Encode g) must equal g on the "
                    "guarded domain; unsupported/non-finite inputs must be errors. DIFF verdicts: every result is compared with the model.",
